@@ -901,7 +901,14 @@ impl<V: View> View for Prev<V> {
                     min
                 }
             }
-            Val::ValI(i) => Val::ValI(i + 1), // integer case works fine
+            Val::ValI(i) => match self.x.get_underlying_var_raw() {
+                // an integer bound on a float variable: one step of that variable, not one unit
+                Some(var_id) => match &ctx.vars()[var_id] {
+                    Var::VarF(interval) => Val::ValF(interval.next(i as f64)),
+                    Var::VarI(_) => Val::ValI(i + 1),
+                },
+                None => Val::ValI(i + 1),
+            },
         };
         self.x.try_set_min(target_min, ctx)
     }
@@ -922,7 +929,13 @@ impl<V: View> View for Prev<V> {
                     max
                 }
             }
-            Val::ValI(i) => Val::ValI(i + 1), // integer case works fine
+            Val::ValI(i) => match self.x.get_underlying_var_raw() {
+                Some(var_id) => match &ctx.vars()[var_id] {
+                    Var::VarF(interval) => Val::ValF(interval.next(i as f64)),
+                    Var::VarI(_) => Val::ValI(i + 1),
+                },
+                None => Val::ValI(i + 1),
+            },
         };
         self.x.try_set_max(target_max, ctx)
     }
